@@ -1,7 +1,9 @@
 (* C15: the statements about the generator's accessors, obtained by composing
    "generated accessor = specification" with the properties of the specification, and the
    soundness of the boolean checks used for the per-run obligation over Gen/GenAccessors.v *)
-From CV Require Import Layout.Layout Layout.BytesProofs Layout.LayoutProofs.
+From CV Require Import Layout.Layout.
+From CV Require Import Layout.BytesProofs.
+From CV Require Import Layout.LayoutProofs.
 Open Scope Z_scope.
 
 Lemma setter_ok_strukt : forall f v s s', strukt_ok s -> spec_set f v s = Ok s' -> strukt_ok s'.
